@@ -73,16 +73,37 @@ func (c *InstCase) Judge(rs []Res, env *Env) Outcome {
 	switch c.Prop {
 	case "C02":
 		// only the memory operand is judged here
-		if m != nil && (len(m.Kind) < 3 || m.Kind[:3] != "ea-") {
-			// is the memory operand still recognisable?
-			o.Status, o.Note = Inconclusive, "carrier instruction mis-encoded ("+m.Kind+"): C01 reports it"
+		immBytes := func(i Inst) int {
+			n := 0
+			for _, op := range i.Ops {
+				if op.Kind == KImm {
+					n += op.ImmW / 8
+				}
+			}
+			return n
+		}
+		if m != nil && len(m.Kind) >= 3 && m.Kind[:3] == "ea-" {
+			return fail(m.Kind, m.Detail)
+		}
+		if in.Bad == "truncated" || (m == nil && in.Len > total) {
+			// the bytes stop short: decode them again, zero-padded, to see which field is cut
+			pad := append(append([]byte{}, out...), make([]byte, 16)...)
+			in2 := Decode(pad, x.Mode)
+			if m2 := x.Match(in2, in2.Len); m2 == nil && total < in2.Len-immBytes(in2) {
+				return fail("ea-bytes", fmt.Sprintf("the encoding of the memory operand is cut short: %d bytes emitted, %s needs %d before its immediate", total, in2, in2.Len-immBytes(in2)))
+			}
+			o.Status, o.Note = Inconclusive, "carrier instruction cut short outside the memory operand: C01 reports it"
 			return o
 		}
 		if m != nil {
-			return fail(m.Kind, m.Detail)
+			o.Status, o.Note = Inconclusive, "carrier instruction mis-encoded ("+m.Kind+"): C01 reports it"
+			return o
 		}
-		if in.Len != total {
-			o.Status, o.Note = Inconclusive, "length mismatch: C01 reports it"
+		if in.Len < total {
+			if immBytes(in) == 0 {
+				return fail("ea-bytes", fmt.Sprintf("%d bytes emitted but %s ends after %d: stray bytes follow the memory operand", total, in, in.Len))
+			}
+			o.Status, o.Note = Inconclusive, "extra bytes after an immediate: C01 reports it"
 			return o
 		}
 		o.Status = Held
@@ -92,7 +113,7 @@ func (c *InstCase) Judge(rs []Res, env *Env) Outcome {
 			o.Status, o.Note = Inconclusive, "not a correct encoding: C01 reports it"
 			return o
 		}
-		want := minLenInst(x)
+		want, strict := minLens(x)
 		if want <= 0 {
 			o.Status, o.Note = Inconclusive, "no minimal-length model for this form"
 			return o
@@ -100,8 +121,8 @@ func (c *InstCase) Judge(rs []Res, env *Env) Outcome {
 		if total > want {
 			return fail("longer-than-shortest", fmt.Sprintf("%d bytes emitted (%s), the shortest valid encoding has %d", total, in, want))
 		}
-		if total < want {
-			o.Status, o.Note = Inconclusive, fmt.Sprintf("model error: emitted %d bytes < modelled minimum %d", total, want)
+		if total < strict {
+			o.Status, o.Note = Inconclusive, fmt.Sprintf("length model error: emitted %d bytes < modelled minimum %d for %s", total, strict, x.Stmt())
 			return o
 		}
 		o.Status = Held
